@@ -7,7 +7,7 @@ From LasV Require Import Lib.Base Gen.GenFormatBits Gen.GenDims Gen.GenViews Mod
 Extraction Language OCaml.
 Extraction "../ocaml/c10/model.ml"
   Z.add Z.mul Z.sub Z.div_eucl Z.compare Z.of_nat Z.to_nat
-  all_ops route_of reduce_route
+  all_ops route_of reduce_route reflected_route_of mirror sfv_rbinop_arr views_inplace_absent views_operator_surface_closed
   sfv_cmp_elem sfv_binop_elem sf_get sf_materialise sfv_index
   view_index materialise np_index chain np_chain is_value reduce_plan
   sfv_ufunc_where concatenate_views concat_grid_first
